@@ -132,8 +132,6 @@ def replay(case):
 
 
 def shrink_candidates(case):
-    if case.get('kind') == 'enum':
-        return
     rules = [(n, tup(x)) for n, x in case['rules']]
     text = case['input']
     for i in range(len(text)):
@@ -162,7 +160,7 @@ def _flat(x):
 def _f_c01_a(case, detail):
     """an AST difference that disappears when nested lists are flattened, on a grammar in which a rule
     with an override (@: / @+:) is called from another rule"""
-    if detail.get('bucket') != 'ast' or case.get('kind') != 'ref':
+    if detail.get('bucket') not in ('ast', 'enum-ast') or case.get('kind') not in ('ref', 'enum'):
         return False
     from vf.gast import calls_in
     rules = [(n, tup(x)) for n, x in case['rules']]
